@@ -138,9 +138,13 @@ def classify_for_breaker(exc: BaseException, retry: Any) -> ErrorClass:
 
     Uses the retry's classifier if available, otherwise falls back to default_classifier.
     """
-    if retry is not None:
-        return _normalize_classification(retry.classifier(exc)).klass
-    return default_classifier(exc)
+    try:
+        if retry is not None:
+            return _normalize_classification(retry.classifier(exc)).klass
+        return default_classifier(exc)
+    except Exception:
+        # A classifier that raises must not prevent the breaker from being told.
+        return ErrorClass.UNKNOWN
 
 
 # ---------------------------------------------------------------------------
